@@ -17,6 +17,7 @@ class Match(FilterFunction):
         try:
             # re.fullmatch caches compiled patterns internally
             return bool(re.fullmatch(pattern, string))
-        except (TypeError, re.error, OverflowError):
+        except (TypeError, re.error, OverflowError, ValueError):
             # OverflowError: a repetition count beyond what `re` accepts.
+            # ValueError: incompatible inline flags, like `(?a)(?u)`.
             return False
